@@ -180,3 +180,14 @@ fn c03_i32s_to_le_bytes_exact() {
     };
     kani::cover!(c && sel == 2);
 }
+
+//@ prop: C03
+//@ expect: fail
+//@ drives: (reachability witness) i32s_to_le_case::<2>
+//@ bound: as c03_i32s_to_le_bytes_exact
+#[kani::proof]
+#[kani::unwind(22)]
+fn c03_vacuity_twin_le_bytes() {
+    let _c = i32s_to_le_case::<2>();
+    assert!(false);
+}
